@@ -136,6 +136,8 @@ class Engine:
             return z3.Exists([x], z3.Select(v.x, x))
         if k == "seq":
             return z3.Length(v.x) > 0
+        if k == "aseq":
+            return v.x[0] > 0
         if k == "str":
             return z3.Length(v.x) > 0
         if k == "int":
@@ -294,6 +296,22 @@ class Engine:
         if n in self.bound:
             return [(st, self.bound[n])]
         if n in st.vars:
+            cond = st.ghost.get(("unbound", n)) if not self.spec else None
+            if cond is not None:
+                # a for-loop target read after the loop: unbound when the loop never ran (UnboundLocalError), else the last element
+                ln = getattr(node, "lineno", 0)
+                if getattr(self, "qdepth", 0) > 0 and getattr(self, "_comp_ctx", None):
+                    cx = self._comp_ctx[-1]
+                    cx["raises"].append(("UnboundLocalError", cond, list(cx["member"]), list(cx["consts"]), ln))
+                elif getattr(self, "qdepth", 0) > 0:
+                    raise OutOfSubset(f"loop variable {n} read after its loop under a binder")
+                else:
+                    s_err = st.fork()
+                    s_err.assume(cond)
+                    if feasible(s_err):
+                        self.do_raise(s_err, "UnboundLocalError", ln)
+                    st.assume(znot(cond))
+                    del st.ghost[("unbound", n)]
             return [(st, st.vars[n])]
         if self.spec and n == "result":
             return [(st, self.result)]
@@ -418,7 +436,7 @@ class Engine:
             return V(a.t, (z3.If(c, a.x[0], b.x[0]), self.ite(c, a.x[1], b.x[1])))
         if k == "tuple":
             return V(a.t, tuple(self.ite(c, x, y) for x, y in zip(a.x, b.x)))
-        if k == "dict":
+        if k in ("dict", "aseq"):
             return V(a.t, (z3.If(c, a.x[0], b.x[0]), z3.If(c, a.x[1], b.x[1])))
         if k == "obj":
             return V(a.t, {f: self.ite(c, a.x[f], b.x[f]) for f in a.x})
@@ -669,6 +687,17 @@ class Engine:
                     self.do_raise(s_err, "KeyError", ln)
                 st.assume(present)
             return [(st, from_term(recv.t[2], z3.Select(recv.x[1], key)))]
+        if k == "aseq":
+            n = recv.x[0]
+            i = self._norm_index(idx.x, n)
+            ok = z3.And(i >= 0, i < n)
+            if not self.spec:
+                s_err = st.fork()
+                s_err.assume(znot(ok))
+                if feasible(s_err):
+                    self.do_raise(s_err, "IndexError", ln)
+                st.assume(ok)
+            return [(st, from_term(recv.t[1], z3.Select(recv.x[1], i)))]
         if k in ("seq", "str"):
             n = z3.Length(recv.x)
             i = self._norm_index(idx.x, n)
@@ -702,15 +731,29 @@ class Engine:
         raise OutOfSubset(f"subscript on {recv.t}")
 
     def ev_Lambda(self, node, st):
-        return [(st, V(("closure",), (node, st, None)))]
+        if node.args.vararg or node.args.kwarg or node.args.kwonlyargs or node.args.posonlyargs:
+            raise OutOfSubset("lambda with *args / keyword-only / positional-only parameters")
+        if not node.args.defaults:
+            return [(st, V(("closure",), (node, st, None)))]
+        # default arguments are evaluated ONCE, when the lambda expression is evaluated (early binding of defaults)
+        outs = [(st, [])]
+        for d in node.args.defaults:
+            outs = [(s2, ds + [v]) for s, ds in outs for s2, v in self.ev(d, s)]
+        return [(s, V(("closure",), (node, s, ds))) for s, ds in outs]
 
     def apply_closure(self, clo: V, args, st):
         """Evaluate the lambda body with parameters bound; free variables are read from the state
-        passed in (the defining frame's *current* state: Python's late binding)."""
+        passed in (the defining frame's *current* state: Python's late binding). Parameters without an explicit argument take the
+        default values captured when the lambda was created."""
         node = clo.x[0]
         params = [a.arg for a in node.args.args]
-        if len(params) != len(args) or node.args.vararg or node.args.kwarg or node.args.kwonlyargs:
+        defaults = list(clo.x[2] or [])
+        if node.args.vararg or node.args.kwarg or node.args.kwonlyargs:
             raise OutOfSubset("closure arity")
+        missing = len(params) - len(args)
+        if missing < 0 or missing > len(defaults):
+            raise OutOfSubset("closure arity")
+        args = list(args) + (defaults[len(defaults) - missing:] if missing else [])
         saved = dict(self.bound)
         for p_, a_ in zip(params, args):
             self.bound[p_] = a_
@@ -718,6 +761,63 @@ class Engine:
             return self.ev(node.body, st)
         finally:
             self.bound = saved
+
+    # ---- closures stored in collections: Lam[...] values (see vals.parse_type)
+    def closure_to_lam(self, clo: V, t, st):
+        """A python-level closure becomes a value of the uninterpreted sort t = Lam[caps]: a fresh constant whose captured-default
+        projections equal the defaults evaluated at creation. One lambda site per Lam sort and function (else refused)."""
+        from .vals import LAM_CAPS, lam_cap_fn
+        name = t[1]
+        caps = LAM_CAPS[name]
+        node, _st, defaults = clo.x
+        defaults = list(defaults or [])
+        if len(defaults) > len(caps):
+            raise ContractDrift(f"lambda at line {node.lineno} captures {len(defaults)} defaults, the declared type {name} has {len(caps)}")
+        sites = self.__dict__.setdefault("lam_sites", {})
+        site = sites.get(name)
+        if site is not None and site[0] is not node:
+            raise OutOfSubset(f"two lambda sites stored as {name}")
+        # depth of the defining frame: free variables of the body are looked up there when the closure is applied
+        sites[name] = (node, len(st.stack), len(defaults))
+        c = fresh(t, "lam")
+        for k, d in enumerate(defaults):
+            st.assume(lam_cap_fn(name, k)(c.x) == to_term(coerce(d, caps[k])))
+        return c
+
+    def apply_lam(self, f: V, args, st):
+        from .vals import LAM_CAPS, lam_cap_fn
+        name = f.t[1]
+        site = self.__dict__.get("lam_sites", {}).get(name)
+        if site is None:
+            raise OutOfSubset(f"application of a {name} value whose lambda site is not in this function (inline the helper that applies it)")
+        node, depth, ndef = site
+        params = [a.arg for a in node.args.args]
+        missing = len(params) - len(args)
+        if missing < 0 or missing > ndef:
+            raise OutOfSubset("closure arity")
+        caps = LAM_CAPS[name]
+        defaults = [from_term(caps[k], lam_cap_fn(name, k)(f.x)) for k in range(ndef)]
+        args = list(args) + (defaults[ndef - missing:] if missing else [])
+        saved = dict(self.bound)
+        for p_, a_ in zip(params, args):
+            self.bound[p_] = a_
+        # the body's free variables live in the DEFINING frame (its current contents: late binding); when the application happens in an
+        # inlined helper, evaluate in that frame
+        swap = len(st.stack) > depth
+        if swap:
+            st.stack[depth], st.vars = st.vars, st.stack[depth]
+        try:
+            outs = self.ev(node.body, st)
+        finally:
+            self.bound = saved
+        if swap:
+            seen_ids = set()
+            for s, _v in outs + [(st, None)]:
+                if id(s) in seen_ids:
+                    continue
+                seen_ids.add(id(s))
+                s.stack[depth], s.vars = s.vars, s.stack[depth]
+        return outs
 
     def ev_Call(self, node, st):
         return self.reg.call(self, node, st)
